@@ -111,6 +111,14 @@ CLAIMS = {
         "run() bodies of all seven classes pass a syntactic frame check (isolation). Persistence and bit-identical reruns are covered only by a bounded stand-in (labelled bounded).",
    note="Trusted: pyvc executor, pydantic/dict behaviour, havoc contracts of run()/mpe at BaseSetup's call sites, A4 for the numerical kernels. Enumerated sizes: see assumptions.",
    design="6 (C15)", technique="contract-based deductive verification: per-operation contracts with symbolic optional fields over enumerated container sizes (pyvc AST->VC, z3), syntactic frame checks, bounded native stand-in for pickle"),
+ "C19": dict(
+   text="Deductive proof from the real source of gen.flatten_sns_names for the list forms: a list of names is returned as it is; a list of lists with reference indices gives REF1..REFk "
+        "(k = references of the first setup) followed by every setup's names at non-reference positions in listed order (loop invariants over symbolic list lengths and reference "
+        "positions, setups enumerated: 2); AttributeError without reference indices; ValueError for other types. Everything that goes through pandas - validation of the table sets, "
+        "re-ordering of coordinates/directions to the sensor order, zero-based line/surface indices, None for omitted sheets, mapping of a mode shape to points, def_geo1/def_geo2 with the "
+        "documented argument forms - is outside the verifier's reach and is checked by a bounded stand-in on crafted table sets with single-fault corruptions (labelled bounded, not counted as proved).",
+   note="Mixed level: proof for the name-order clause, bounded for the table clauses. Two defects found by the stand-in were repaired in /repo (known_findings.jsonl).",
+   design="6 (C19)", technique="contract-based deductive verification (pyvc AST->VC, z3) for flatten_sns_names; bounded native stand-in for the pandas-dependent functions"),
 }
 NOT_APPLICABLE = {
  "C07": "accuracy tolerance (2.5 % / 15 %) of a floating-point FFT/peak-picking/regression pipeline: no contract over exact reals can state or discharge it (DESIGN.md section 8); its scale-invariance clause is covered under C08",
